@@ -8,6 +8,7 @@ import itertools
 import math
 import random
 
+import json
 import numpy as np
 import pandas as pd
 
@@ -486,21 +487,165 @@ def check_fix_window_plant(case):
     return out
 
 
+def check_window_zones(case):
+    """C08: an asset is dispatched exactly in the grid steps of [start, end) -- start / end are instants: given naive they are read in the
+    grid's zone, given zone-aware (in the grid's zone or any other) they denote that instant."""
+    eao = eao_mod()
+    out = []
+    tz = case['tz']
+    tg = eao.assets.Timegrid(pd.Timestamp(case['start']), pd.Timestamp(case['start']) + pd.Timedelta(case['hours'], 'h'), freq='h', timezone=tz)
+    pts = list(tg.timepoints) + [tg.end]
+    a, b = case['window']
+    s_inst, e_inst = pts[a], pts[b]                      # instants (aware, grid zone)
+    how = case['given']
+    if how == 'naive':
+        s_arg, e_arg = s_inst.tz_localize(None), e_inst.tz_localize(None)
+    elif how == 'same':
+        s_arg, e_arg = s_inst, e_inst
+    else:
+        s_arg, e_arg = s_inst.tz_convert(how), e_inst.tz_convert(how)
+    node = eao.assets.Node('n')
+    asset = eao.assets.SimpleContract(name='c', nodes=node, price='p', min_cap=-1., max_cap=1., start=s_arg.to_pydatetime() if case.get('py') else s_arg,
+                                      end=e_arg.to_pydatetime() if case.get('py') else e_arg)
+    try:
+        op = asset.setup_optim_problem({'p': np.ones(tg.T)}, tg)
+    except Exception as ex:
+        out.append(fail('C08.window.zone_aware_dates_denote_instants', 'basic_classes:Timegrid.__init__', case, dict(case), f'{type(ex).__name__}: {str(ex)[:150]}'))
+        return out
+    got = sorted(set(int(t) for t in op.mapping['time_step']))
+    want = list(range(a, b))
+    if got != want:
+        out.append(fail('C08.window.zone_aware_dates_denote_instants', 'basic_classes:Timegrid.__init__', case, dict(case),
+                        f'window [{s_arg}, {e_arg}) given as {how}: dispatched in steps {got[:3]}..{got[-3:] if got else []} ({len(got)}), the window covers steps {a}..{b - 1}'))
+    return out
+
+
+def check_unit_linked(case):
+    """C12 for durations that are not rates: a LinkedAsset (a main unit may only run while an auxiliary unit is on, looking time_back /
+    time_forward main time units around each step) on an hourly grid, set up in two main time units with durations and rates re-expressed:
+    same optimal value and volumes."""
+    eao = eao_mod()
+    out = []
+    rng = random.Random(case['seed'])
+    T = case['T']
+    # the auxiliary unit is worth running in one or two blocks of the horizon (so looking back / forward matters at the block edges)
+    n_on = rng.randint(2, T - 2)
+    p_aux = np.asarray([50. if t < n_on else -200. for t in range(T)])
+    if rng.random() < .4:
+        p_aux[rng.randrange(T)] *= -1
+    p_main = np.asarray([float(rng.choice([1, 2, 3])) for _ in range(T)])
+
+    def solve(unit, k):
+        start = pd.Timestamp('2021-01-01')
+        tg = eao.assets.Timegrid(start, start + pd.Timedelta(T, 'h'), freq='h', main_time_unit=unit)
+        P, H = eao.assets.Node('power'), eao.assets.Node('heat')
+        prices = {'aux': -p_aux, 'main': -p_main, 'zero': np.zeros(T)}
+        aux = eao.assets.CHPAsset(name='AUX', nodes=(P, H), price='aux', min_cap=1. / k, max_cap=1. / k)
+        main = eao.assets.CHPAsset(name='MAIN', nodes=(P, H), price='main', min_cap=0., max_cap=10. / k)
+        linked = eao.portfolio.LinkedAsset(eao.portfolio.Portfolio([aux, main]), nodes=[P, H], asset1_variable=[main, 'disp', P], asset2_variable=[aux, 'bool_on', None],
+                                           time_back=case['back'] * k, time_forward=case['forward'] * k, name='linked')
+        market = eao.assets.SimpleContract(name='market', nodes=P, price='zero', min_cap=-100. / k, max_cap=0.)
+        pf = eao.portfolio.Portfolio([linked, market])
+        op = pf.setup_optim_problem(prices, tg)
+        res = op.optimize()
+        if isinstance(res, str):
+            return None, None
+        o = eao.io.extract_output(pf, op, res, prices)
+        d = o['dispatch']
+        return res.value, -d[[c for c in d.columns if c.startswith('market')][0]].values.astype(float)
+    try:
+        v1, s1 = solve('h', 1.)
+        v2, s2 = solve(case['unit'], {'min': 60., 'd': 1. / 24.}[case['unit']])
+    except Exception as ex:
+        out.append(fail('C12.unit.linked_asset_durations', 'portfolio:LinkedAsset.setup_optim_problem', case, dict(case), f'{type(ex).__name__}: {str(ex)[:150]}'))
+        return out
+    if v1 is None or v2 is None:
+        return out
+    if abs(v1 - v2) > 1e-4 * max(1., abs(v1)) or np.abs(s1 - s2).max() > 1e-4:
+        out.append(fail('C12.unit.linked_asset_durations', 'portfolio:LinkedAsset.setup_optim_problem', case, dict(case),
+                        f'main time unit h: value {v1}, volumes {np.round(s1, 3).tolist()}; unit {case["unit"]}: value {v2}, volumes {np.round(s2, 3).tolist()}'))
+    return out
+
+
+def check_unit_portfolio(case):
+    """C12, first sentence: the same physical portfolio described in two main time units -- rates (capacities, inflow, holding cost, ramp)
+    multiplied by the hours per unit, durations (minimum runtime / downtime, time already running, maximum holding time) divided by it --
+    has the same optimal value and the same dispatched volumes.  Hourly grid; units h vs min / d; discounting on."""
+    eao = eao_mod()
+    out = []
+    rng = random.Random(case['seed'])
+    T = case['T']
+    price = np.asarray([float(rng.choice([-2, 1, 3, 6, 9, 14])) for _ in range(T)])
+    gasp = np.asarray([float(rng.choice([1, 2, 3])) for _ in range(T)])
+    kinds = case['kinds']
+    w = case.get('wacc', 0.)
+    dur = case.get('dur', 2)            # hours
+
+    def solve(unit):
+        k = {'h': 1., 'min': 1. / 60., 'd': 24.}[unit]
+        start = pd.Timestamp('2021-01-01')
+        tg = eao.assets.Timegrid(start, start + pd.Timedelta(T, 'h'), freq='h', main_time_unit=unit)
+        pts = list(tg.timepoints) + [tg.end]
+        A, G = eao.assets.Node('A'), eao.assets.Node('G')
+        assets = [eao.assets.SimpleContract(name='market', nodes=A, price='p', min_cap=-6. * k, max_cap=6. * k, wacc=w)]
+        if 'storage' in kinds:
+            assets.append(eao.assets.Storage(name='sto', nodes=A, size=5., cap_in=2. * k, cap_out=1.5 * k, eff_in=.9, inflow=.25 * k, cost_store=.05 * k, cost_in=.1,
+                                             start_level=1., end_level=1., wacc=w))
+        if 'take' in kinds:
+            take = {'start': [pts[1]], 'end': [pts[T - 1]], 'values': [6.]}
+            assets.append(eao.assets.Contract(name='con', nodes=A, price='p', extra_costs=.4, min_cap=0., max_cap=2. * k, max_take=take, wacc=w))
+        if 'plant' in kinds:
+            assets.append(eao.assets.Plant(name='plant', nodes=[A, G], min_cap=1. * k, max_cap=4. * k, extra_costs=.3, ramp=case.get('ramp', 2.) * k, start_costs=2., running_costs=.2 * k,
+                                           min_runtime=dur / k, min_downtime=dur / k, time_already_running=0, time_already_off=dur / k, fuel_efficiency=.5,
+                                           consumption_if_on=.3 * k, start_fuel=.4, wacc=w))
+            assets.append(eao.assets.SimpleContract(name='gas', nodes=G, price='g', min_cap=0., max_cap=50. * k, wacc=w))
+        if 'duration' in kinds:
+            assets.append(eao.assets.Storage(name='buffer', nodes=A, size=3., cap_in=1. * k, cap_out=1. * k, max_store_duration=dur / k, start_level=0., end_level=0., wacc=w))
+        pf = eao.portfolio.Portfolio(assets)
+        prices = {'p': price, 'g': gasp}
+        op = pf.setup_optim_problem(prices, tg)
+        res = op.optimize()
+        if isinstance(res, str):
+            return None, None
+        o = eao.io.extract_output(pf, op, res, prices)
+        return res.value, o['dispatch']
+    try:
+        v1, d1 = solve('h')
+        v2, d2 = solve(case['unit'])
+    except Exception as ex:
+        out.append(fail('C12.unit.same_value_and_volumes_in_another_main_time_unit', 'portfolio:Portfolio.setup_optim_problem', case, dict(case), f'{type(ex).__name__}: {str(ex)[:160]}'))
+        return out
+    if v1 is None or v2 is None:
+        if (v1 is None) != (v2 is None):
+            out.append(fail('C12.unit.same_value_and_volumes_in_another_main_time_unit', 'portfolio:Portfolio.setup_optim_problem', case, dict(case),
+                            f'solvable in one unit only: h -> {v1}, {case["unit"]} -> {v2}'))
+        return out
+    if abs(v1 - v2) > 2e-4 * max(1., abs(v1)):
+        out.append(fail('C12.unit.same_value_and_volumes_in_another_main_time_unit', 'portfolio:Portfolio.setup_optim_problem', case, dict(case),
+                        f'optimal value in unit h: {v1}; in unit {case["unit"]}: {v2} (prices {price.tolist()})'))
+    return out
+
+
 # ------------------------------------------------------------------------------------------------ C18 nodal prices
 def check_nodal_price(case):
     eao = eao_mod()
     out = []
     start = pd.Timestamp('2021-01-01')
     T = case['T']
-    tg = eao.assets.Timegrid(start, start + pd.Timedelta(4 * T, 'h'), freq='4h')
+    # step length / discounting: 4 h steps without discounting, or daily steps with a (large) wacc on every asset -- the value is a sum of
+    # DISCOUNTED cash flows, so the marginal value of an injection is the discounted price
+    hours = case.get('step_hours', 4)
+    w = case.get('wacc', 0.)
+    rs = 4. / hours                   # rates such that the volumes per step are those of the 4 h case
+    tg = eao.assets.Timegrid(start, start + pd.Timedelta(hours * T, 'h'), freq=f'{hours}h')
     pts = list(tg.timepoints) + [tg.end]
     rng = np.random.RandomState(case['pseed'])
     price = rng.uniform(5, 30, T).round(1)
     market, site = eao.assets.Node('market'), eao.assets.Node('site')
-    assets = [eao.assets.SimpleContract(name='m', nodes=market, price='p', min_cap=-10., max_cap=10.)]
+    assets = [eao.assets.SimpleContract(name='m', nodes=market, price='p', min_cap=-10. * rs, max_cap=10. * rs, wacc=w)]
     for k, (a, b) in enumerate(case['windows']):
-        assets.append(eao.assets.Transport(name=f't{k}', nodes=[market, site], min_cap=0., max_cap=5., efficiency=0.9, start=pts[a], end=pts[b]))
-        assets.append(eao.assets.SimpleContract(name=f'l{k}', nodes=site, min_cap=-1. - k, max_cap=-1. - k, start=pts[a], end=pts[b]))
+        assets.append(eao.assets.Transport(name=f't{k}', nodes=[market, site], min_cap=0., max_cap=5. * rs, efficiency=0.9, start=pts[a], end=pts[b], wacc=w))
+        assets.append(eao.assets.SimpleContract(name=f'l{k}', nodes=site, min_cap=(-1. - k) * rs, max_cap=(-1. - k) * rs, start=pts[a], end=pts[b], wacc=w))
     pf = eao.portfolio.Portfolio(assets)
     prices = {'p': price}
     op, res = optimize(pf, prices, tg)
@@ -516,7 +661,7 @@ def check_nodal_price(case):
             out.append(fail('C18.place.price_reported_for_active_step', 'io:extract_output', case, dict(case, step=t), f'no nodal price for site at active step {t}'))
             continue
         for d in (0.5, -0.5):
-            inj = eao.assets.SimpleContract(name='inj', nodes=site, min_cap=d / 4., max_cap=d / 4., start=pts[t], end=pts[t + 1])
+            inj = eao.assets.SimpleContract(name='inj', nodes=site, min_cap=d / hours, max_cap=d / hours, start=pts[t], end=pts[t + 1], wacc=w)
             pf2 = eao.portfolio.Portfolio(assets + [inj])
             op2, res2 = optimize(pf2, prices, tg)
             if isinstance(res2, str):
@@ -645,21 +790,23 @@ def check_scaled(case):
     price = rng.uniform(5, 30, T).round(1)
     node = eao.assets.Node('n')
     a, b = case['window']
+    # the base asset's own window (inside the scaled asset's): the fix costs count for the SCALED asset's active duration
+    ba, bb = case.get('base_window', case['window'])
     S, s = case['norm'], case['scale']
 
     def base(f):
         if case.get('base') == 'must_take':
             # a base asset whose dispatch is forced away from zero (delivery obligation), unfavourable at some prices
-            return eao.assets.SimpleContract(name='bat', nodes=node, price='fix', min_cap=1.5 * f, max_cap=2. * f, start=pts[a], end=pts[b])
+            return eao.assets.SimpleContract(name='bat', nodes=node, price='fix', min_cap=1.5 * f, max_cap=2. * f, start=pts[ba], end=pts[bb])
         if case.get('base') == 'load':
-            return eao.assets.SimpleContract(name='bat', nodes=node, min_cap=-2. * f, max_cap=-1. * f, extra_costs=.5, start=pts[a], end=pts[b])
+            return eao.assets.SimpleContract(name='bat', nodes=node, min_cap=-2. * f, max_cap=-1. * f, extra_costs=.5, start=pts[ba], end=pts[bb])
         if case.get('base') == 'structured':
             # a sub-portfolio with an internal node: cheap source behind a lossy pipe of limited capacity (internal variables, all continuous)
             inner_node = eao.assets.Node('inner')
             inner = eao.portfolio.Portfolio([eao.assets.SimpleContract(name='src', nodes=inner_node, price='fix', min_cap=0., max_cap=3. * f),
                                              eao.assets.Transport(name='pipe', nodes=[inner_node, node], min_cap=0., max_cap=1.5 * f, efficiency=.9)])
-            return eao.portfolio.StructuredAsset(name='bat', nodes=node, portfolio=inner, start=pts[a], end=pts[b])
-        return eao.assets.Storage(name='bat', nodes=node, size=4. * f, cap_in=1. * f, cap_out=1. * f, start=pts[a], end=pts[b])
+            return eao.portfolio.StructuredAsset(name='bat', nodes=node, portfolio=inner, start=pts[ba], end=pts[bb])
+        return eao.assets.Storage(name='bat', nodes=node, size=4. * f, cap_in=1. * f, cap_out=1. * f, start=pts[ba], end=pts[bb])
     sc = eao.assets.ScaledAsset(name='sc', base_asset=base(1.), start=pts[a], end=pts[b], min_scale=s, max_scale=s, norm_scale=S, fix_costs=case['rate'])
     mk = eao.assets.SimpleContract(name='m', nodes=node, price='p', min_cap=-10., max_cap=10.)
     prices_ = {'p': price, 'fix': np.full(T, 17.)}
@@ -693,6 +840,9 @@ def _hist_assets(eao, rng):
             # two assets with their own coarser frequency, the same window and different waccs; an order book (reads the shared grid's restricted part)
             eao.assets.SimpleContract(name='own1', nodes=A, price='q', min_cap=0., max_cap=1., freq='4h', wacc=.4),
             eao.assets.SimpleContract(name='own2', nodes=A, price='q', min_cap=-1., max_cap=0., extra_costs=.1, freq='4h', wacc=0.),
+            # a plant whose start ramp profile is given in the grid's main time unit (converted anew for every grid)
+            eao.assets.Plant(name='plant', nodes=A, price='q', min_cap=1., max_cap=3., start_costs=1., start_ramp_lower_bounds=[.5, 1.], start_ramp_upper_bounds=[.5, 1.],
+                             ramp_freq=rng.choice([None, None, 'h'])),
             eao.assets.OrderBook(name='book', nodes=A, wacc=rng.choice([0., .25]), orders=pd.DataFrame(
                 {'start': [t0 + pd.Timedelta(2, 'h'), t0 + pd.Timedelta(8, 'h')], 'end': [t0 + pd.Timedelta(12, 'h'), t0 + pd.Timedelta(60, 'h')],
                  'capa': [1., -2.], 'price': [3., 8.]}))]
@@ -746,6 +896,15 @@ def check_history(case):
         want = problem_signature(fresh.setup_optim_problem(_prices(tgf, 7), tgf))
         if got != want:
             out.append(fail('C10.history.same_problem_as_fresh_objects', 'portfolio:Portfolio.setup_optim_problem', case, dict(case), 'problem after the history differs from the problem of fresh objects'))
+        # the objects' own parameters are what they were: the saved form of every asset equals that of a fresh one
+        for a_used, a_new in zip(assets, fresh.assets):
+            j1, j2 = eao.serialization.to_json(a_used), eao.serialization.to_json(a_new)
+            if j1 != j2:
+                d1, d2 = json.loads(j1), json.loads(j2)
+                diff = sorted(k for k in set(d1) | set(d2) if d1.get(k) != d2.get(k))
+                out.append(fail('C10.history.parameters_of_the_assets_unchanged', 'portfolio:Portfolio.setup_optim_problem', case, dict(case),
+                                f'asset {a_used.name}: saved form after the history differs from a fresh object in {diff[:6]}'))
+                break
     except Exception as e:
         out.append(fail('C10.history.no_breakage', 'portfolio:Portfolio.setup_optim_problem', case, dict(case), f'{type(e).__name__}: {str(e)[:200]}'))
     return out
@@ -1891,11 +2050,6 @@ def check_periodic_kinds(case):
             a = eao.assets.Contract(name='x', nodes=B, price='q', extra_costs=.5, min_cap=-1., max_cap=2., **kw)
         elif kind == 'transport':
             a = eao.assets.Transport(name='x', nodes=[A, B], min_cap=0., max_cap=2., efficiency=.9, costs_const=.1, **kw)
-        elif kind == 'take':
-            # a contract whose take over a window (aligned with the coarse steps) is limited: the limit binds at these prices
-            lo_, hi_ = case.get('take_window', (6, 18))
-            take = {'start': [start + pd.Timedelta(lo_, 'h')], 'end': [start + pd.Timedelta(hi_, 'h')], 'values': [case.get('take', 8.)]}
-            a = eao.assets.Contract(name='x', nodes=B, price='p', min_cap=0., max_cap=2., max_take=take, min_take={'start': take['start'], 'end': take['end'], 'values': [2.]}, **kw)
         else:
             a = eao.assets.MultiCommodityContract(name='x', nodes=[A, B], factors_commodities=[-1., .8], min_cap=0., max_cap=2., extra_costs=.2, **kw)
         others = [eao.assets.SimpleContract(name='mA', nodes=A, price='p', min_cap=-5., max_cap=5.),
@@ -1981,7 +2135,7 @@ def check_coarse_kinds(case):
     T = tg.T
     dt = np.asarray(tg.dt, dtype=float)
     A, B = eao.assets.Node('A'), eao.assets.Node('B')
-    prices = {'p': np.asarray([float(rng.randint(1, 9)) for _ in range(T)]), 'q': np.asarray([float(rng.randint(1, 9)) for _ in range(T)])}
+    prices = {'p': np.asarray([float(rng.randint(1, 9)) for _ in range(T)]), 'q': np.asarray([float(rng.randint(1, 9)) for _ in range(T)]), 'cheap': np.full(T, .25)}
 
     def build(with_freq):
         kw = dict(freq=coarse) if with_freq else {}
@@ -1994,6 +2148,11 @@ def check_coarse_kinds(case):
             a = eao.assets.Contract(name='x', nodes=B, price='p', extra_costs=.5, min_cap=-1., max_cap=2., **kw)
         elif kind == 'transport':
             a = eao.assets.Transport(name='x', nodes=[A, B], min_cap=0., max_cap=2., efficiency=.9, costs_const=.1, **kw)
+        elif kind == 'take':
+            # a contract whose take over a window (aligned with the coarse steps) is limited: the limit binds at these prices
+            lo_, hi_ = case.get('take_window', (6, 18))
+            take = {'start': [start + pd.Timedelta(lo_, 'h')], 'end': [start + pd.Timedelta(hi_, 'h')], 'values': [case.get('take', 8.)]}
+            a = eao.assets.Contract(name='x', nodes=B, price='cheap', min_cap=0., max_cap=2., max_take=take, min_take={'start': take['start'], 'end': take['end'], 'values': [2.]}, **kw)
         else:
             a = eao.assets.MultiCommodityContract(name='x', nodes=[A, B], factors_commodities=[-1., .8], min_cap=0., max_cap=2., extra_costs=.2, **kw)
         others = [eao.assets.SimpleContract(name='mA', nodes=A, price='p', min_cap=-5., max_cap=5.),
